@@ -73,6 +73,8 @@ def run(ctx, tier):
                  ("I3", "set_host_or_hostname refusals precede the first mutation, identical in both types"),
                  ("I4", "port writers"), ("I5", "scheme writers store lower-case schemes"),
                  ("I6", "no refusal test is statically dead (compares a value against a constant it is known not to hold)"),
+                 ("I9", "(shared with C01.S2b) the parser refuses credentials in front of an empty authority by testing the buffer up to the "
+                        "delimiter: otherwise a non-special URL keeps credentials with an empty host"),
                  ("I8", "the pathname setter changes nothing before its opaque-path refusal"),
                  ("I7", "the opaque-path flag is raised only in the parser's opaque path state; elsewhere it is copied from "
                         "another record or cleared")):
@@ -82,6 +84,8 @@ def run(ctx, tier):
     for name in cfgs:
         ctx.set_config(name)
         check(ctx, fxs[name])
+        from rules import helpers_spec as HS
+        HS.check_authority_buffer_test(ctx, fxs[name], "I9")
 
 
 class GuardMonitor(Monitor):
